@@ -190,7 +190,7 @@ fn main() {
             }
         }
     }
-    let budget = if opts.thorough() { 100_000 } else { 5_000 };
+    let budget = if opts.thorough() { 50_000 } else { 5_000 };
     let stats = Arc::new(Stats { executions: Default::default(), decisions: Default::default(), distinct: Default::default() });
     let mut distinct_total = 0u64;
     let mut pbt = PbTotals::default();
@@ -212,7 +212,7 @@ fn main() {
         let small = s.threads == 2 && s.pairs == 1;
         // (bound, cap on free deviations per schedule, cap on executions)
         let (bound, free, cap) = if opts.thorough() {
-            if small && s.clock_step == 0 { (3, 3, 600_000) } else if s.threads == 2 { (2, 3, 300_000) } else { (2, 2, 150_000) }
+            if small && s.clock_step == 0 { (3, 3, 300_000) } else if s.threads == 2 { (2, 3, 150_000) } else { (2, 2, 80_000) }
         } else if small && s.clock_step == 0 {
             (2, 3, 40_000)
         } else {
